@@ -64,7 +64,8 @@ class TapeBridge:
     def cells(self, tier):
         return [{"id": "fn/append_data_blocks/array-form", "fn": "adb"}, {"id": "fn/append_blank/array-form", "fn": "run", "what": "append_blank", "value": 0x00},
                 {"id": "fn/append_leader/array-form", "fn": "run", "what": "append_leader", "value": 0x55},
-                {"id": "bridge/add_file-output-is-well-formed", "fn": "bridge"}]
+                {"id": "bridge/add_file-output-is-well-formed", "fn": "bridge"},
+                {"id": "induction/appending-preserves-read_file-preconditions", "fn": "stable"}]
 
     def probes(self, cell):
         for L in (1, 2, 254, 255, 256, 509, 510, 511, 765, 1000):
@@ -296,6 +297,10 @@ class TapeBridge:
         q0 = SymInt(z3.Int("fq!%d" % p.fresh))
         env.ensure(key + "::bridge:filler-before-name-file-block",
                    Implies(And(q0 >= n0, q0 < H, *at(q0)), Or(sel(A, q0) == 0x00, sel(A, q0) == 0x55)), ("C06",), internal=INTERNAL)
+        p.fresh += 1
+        qf = SymInt(z3.Int("fq!%d" % p.fresh))
+        env.ensure(key + "::bridge:prior-buffer-untouched",
+                   Implies(And(qf >= 0, qf < n0, *at(qf)), sel(A, qf) == sel(B0, qf)), ("C06", "C09"), internal=INTERNAL)
         # ---- WFblocks instances
         env.ensure(key + "::bridge:wf-base", wf.base(), ("C06",), internal=INTERNAL)
         eofpos = newlen(base, L)
@@ -319,6 +324,48 @@ class TapeBridge:
               [f_.instance(jj) for f_ in facts if f_.name == "n-hdr"]
         env.ensure(key + "::bridge:payload-map", Implies(And(*hyp), wf.payload(jj, tt)), ("C06",), internal=INTERNAL)
         env.ensure(key + "::bridge:total-length", And(wf.OFFf(K) == L, wf.Sf(K) + 6 == n), ("C06",), internal=INTERNAL)
+
+
+    # ------------------------------------------------------------------ the inductive step over the number of files
+    def s_stable(self, env, cell):
+        """
+        Every instance kind of read_file's pre-condition (tape_reader_contracts) that holds for a file lying inside a buffer
+        (A, n) still holds in any buffer (A2, n2) that extends it (n <= n2, equal below n).  With the bridge cell (the new file's
+        instances hold behind ANY prior buffer, the prior bytes are untouched, the file ends exactly at the new length) this is the
+        step of the induction over the number of files:   all m < M files readable in B  ==>  all m <= M readable in add_file(B).
+        Pure ghost-level lemma: no code is executed; the formulas are the very ones fn/read_file and fn/read_blocks assume.
+        """
+        p = cur()
+        key = KEY + "add_files"
+        I = lambda nm: SymInt(z3.Int(nm))
+        n, n2, p0, H, K, j, q, t = I("st_n"), I("st_n2"), I("st_p0"), I("st_H"), I("st_K"), I("st_j"), I("st_q"), I("st_t")
+        A, A2 = z3.Array("st_A", z3.IntSort(), z3.IntSort()), z3.Array("st_A2", z3.IntSort(), z3.IntSort())
+        w1 = TapeReaderContracts.WF(A, n, H + 21, K, tag="st")
+        w2 = TapeReaderContracts.WF(A2, n2, H + 21, K, tag="st")
+        p.assume(And(n >= 0, n <= n2, p0 >= 0))
+
+        def agree(x):
+            return Implies(And(x >= 0, x < n), sel(A2, x) == sel(A, x))
+        T = TapeReaderContracts
+        # positions any instance may look at
+        s_j, s_p = w1.Sf(j), w1.Sf(j - 1)
+        pos = [s_j + k for k in range(4)] + [s_p + 3, q, s_j + 4 + t] + [H + k for k in range(21)]
+        ag = [agree(x) for x in pos]
+        # what is known about the file inside (A, n): the ground part and the instances at j-1, j (every j), q, t
+        known = [T.rf_ground(A, n, p0, H, w1), w1.base(), w1.blockhdr(j), w1.blockhdr(j - 1), w1.filler(j, q), w1.payload(j, t),
+                 T.rf_filler(A, p0, H, q)]
+        hyp = And(*(known + ag))
+        env.ensure(key + "::induction:ground-part-stable", Implies(hyp, And(T.rf_ground(A2, n2, p0, H, w2), w2.base())), ("C06",), internal=INTERNAL)
+        env.ensure(key + "::induction:filler-before-name-file-stable", Implies(hyp, T.rf_filler(A2, p0, H, q)), ("C06",), internal=INTERNAL)
+        env.ensure(key + "::induction:block-header-stable", Implies(hyp, w2.blockhdr(j)), ("C06",), internal=INTERNAL)
+        env.ensure(key + "::induction:filler-between-blocks-stable", Implies(hyp, w2.filler(j, q)), ("C06",), internal=INTERNAL)
+        env.ensure(key + "::induction:payload-map-stable", Implies(hyp, w2.payload(j, t)), ("C06",), internal=INTERNAL)
+        # non-vacuity: the hypotheses are satisfiable with a non-trivial file (one data block of 2 bytes) and a real extension
+        s = z3.Solver()
+        s.set("timeout", 20000)
+        zb = lambda c: c.e if hasattr(c, "e") else c
+        s.add(zb(hyp), zb(And(K == 1, j == 0, n2 > n, t == 1, w1.LN(0) == 2)), *[zb(c) for c in p.pc])
+        env.ensure(key + "::induction:hypotheses-satisfiable", s.check() == z3.sat, ("C06",), internal="vacuous lemma")
 
 
 LEMMAS = [TapeBridge()]
